@@ -60,6 +60,15 @@ CLAIMED = {
              "values). The scheduler-level consequence is outside (C01).",
         design="3/C19",
         technique=TECH + "; value skeletons as lazily created solver choice variables, reference-model oracle"),
+    "C24": dict(
+        text="Every history of tag commands up to the bound - command vector = solver choice variables over all distinct "
+             "add / update / rm-pair / rm-key / two-pair add / mixed rm commands on two entities - is run through the real "
+             "record_tags / delete_tags / get_tags on the real in-memory SQLite backend and compared after every command with the "
+             "key-value model of the statement; the tag_edit graph is checked acyclic and superseded tags non-current.",
+        note="<= 3 commands (quick) / 4 (thorough); keys {k,l}, values {0,1,'x',null}. One listed known finding (an add of a pair "
+             "that is current through an update-created tag duplicates it) is tolerated exactly and witnessed.",
+        design="3/C24",
+        technique=TECH + "; command histories as solver choice variables, executed natively on the real backend; model oracle"),
     "C26": dict(
         text="merge_dicts, get_context_value, Job.get_context on chains of real Job objects, Task.update_context and the root "
              "merge of Scheduler.run are executed on contexts drawn by solver variables from a menu of 11 value shapes; the "
@@ -84,6 +93,16 @@ CLAIMED = {
         note="Strings <= 4 (quick) / prefixes up to 9 chars (thorough); <= 3-4 lines; local paths only; the script is not executed.",
         design="3/C29",
         technique=TECH + "; symbolic command strings partitioned by length/prefix; line and shape menus as solver choice variables"),
+    "C33": dict(
+        text="The real CallGraphQuery.filter_job_statuses / filter_execution_statuses / build (joins and status terms) are run on "
+             "a FakeSession that evaluates the SQLAlchemy clause objects they assemble, with SQL three-valued logic, over a "
+             "symbolic job row (symbolic end_time, cached flag, result-type string) and its optional call node / value rows, "
+             "optionally with a second job in the execution; returned <=> Job.calc_status / Execution.calc_status on the same row "
+             "equals the filtered status.",
+        note="Row domain restricted to what the recorder writes (witnessed each run on a recorded workflow, where FakeSession is "
+             "also compared with real SQLite).",
+        design="3/C33",
+        technique=TECH + "; SQL clause objects interpreted over symbolic rows (FakeSession stub S4)"),
     "C34": dict(
         text="format_tag_value / parse_tag_value executed symbolically on symbolic strings (all strings up to a length over "
              "stated alphabets), ints, literals and depth-1 lists/dicts; round trip and type preservation asserted.",
